@@ -43,6 +43,7 @@ type Obligation struct {
 	Result  SolverResult
 	Ground  string
 	Trigger string
+	Props   string // comma separated property ids this obligation is attributed to ("" = the unit's default)
 }
 
 type FV struct {
@@ -165,6 +166,13 @@ func (fv *FV) get(st *State, cell string, s Sort) string {
 		if t, ok := fv.cellType[cell]; ok && t != nil && strings.HasPrefix(cell, "v!") {
 			if f := fv.typeFacts(t, q, fv.entry); f != "true" {
 				fv.globals = append(fv.globals, fmt.Sprintf("(assert %s)", f))
+			}
+		}
+		// entry heap: every stored reference is allocated, every stored integer is in range
+		if t, ok := fv.cellType[cell]; ok && t != nil && strings.HasPrefix(cell, "H!") {
+			if fact := fv.typeFactsQ(t, sel(q, "r!"), "alloc@0"); fact != "true" {
+				fv.decl("alloc@0", SInt)
+				fv.globals = append(fv.globals, fmt.Sprintf("(assert (forall ((r! Int)) (! %s :pattern (%s))))", fact, sel(q, "r!")))
 			}
 		}
 	}
@@ -356,7 +364,6 @@ func (fv *FV) setupEntry(st *State) {
 			}
 		}
 	}
-	fv.heapFacts(st, nil)
 	cx := &Cx{st: st, old: fv.entry, contract: true, scopePos: fv.fn.Body.Lbrace + 1, noOb: true, env: map[string]TV{}}
 	if fv.fc != nil {
 		for _, l := range fv.fc.Lets {
@@ -571,7 +578,9 @@ func (fv *FV) enterLoop(h *Block, in *State) *State {
 	cx := &Cx{st: in, old: fv.entry, contract: true, scopePos: h.ScopePos, noOb: true, loopIn: entry, env: map[string]TV{}}
 	for _, c := range invs {
 		for _, cj := range fv.conjuncts(c.Expr, cx) {
-			fv.oblige(in, "inv.init", fmt.Sprintf("inv.init[%d][%d]", h.LoopOrd, fv.ordinal(fmt.Sprintf("inv.init.%d", h.LoopOrd))), cj.term, cj.text, h.Pos, nil)
+			if ob := fv.oblige(in, "inv.init", fmt.Sprintf("inv.init[%d][%d]", h.LoopOrd, fv.ordinal(fmt.Sprintf("inv.init.%d", h.LoopOrd))), cj.term, cj.text, h.Pos, nil); ob != nil {
+				ob.Props = c.Tag
+			}
 		}
 	}
 	// discover the cells written by the body
@@ -714,7 +723,9 @@ func (fv *FV) backEdge(from, h *Block, st *State) {
 	cx := &Cx{st: st, old: fv.entry, contract: true, scopePos: h.ScopePos, noOb: true, loopIn: entry, env: map[string]TV{}}
 	for _, c := range invs {
 		for _, cj := range fv.conjuncts(c.Expr, cx) {
-			fv.oblige(st, "inv.step", fmt.Sprintf("inv.step[%d][%d]", h.LoopOrd, fv.ordinal(fmt.Sprintf("inv.step.%d", h.LoopOrd))), cj.term, cj.text, from.Pos, nil)
+			if ob := fv.oblige(st, "inv.step", fmt.Sprintf("inv.step[%d][%d]", h.LoopOrd, fv.ordinal(fmt.Sprintf("inv.step.%d", h.LoopOrd))), cj.term, cj.text, from.Pos, nil); ob != nil {
+				ob.Props = c.Tag
+			}
 		}
 	}
 }
@@ -793,6 +804,7 @@ func (fv *FV) checkPost(st *State, res []TV, pos token.Pos) {
 			}
 			ob := fv.oblige(st, "ensures", name, goal, cj.text, pos, nil)
 			if ob != nil {
+				ob.Props = e.Tag
 				ob.Except = e.Except
 				if e.Tag == "expected-fail" {
 					ob.Expect = "fail"
